@@ -14,7 +14,7 @@
    Model/Ast.node, [cgen] is the generator restricted to it, [ceval] the Soy
    meaning restricted to it (proved equal to Model/Interp.v's walker in
    Proofs/MiniJSProofs.v).  Definitions only. *)
-From Soy Require Import Model.Bytes Model.Num Model.Values Model.Outcome Model.Ast Model.JsGen.
+From Soy Require Import Model.Bytes Model.Num Model.Values Model.Outcome Model.Ast Model.JsGen Model.Escape.
 Open Scope N_scope.
 
 (* ---- values ---- *)
@@ -395,6 +395,14 @@ Fixpoint wrap_escapes (ds : list pdir) (e : jexpr) : jexpr :=
 Definition cgen_print_expr (mode : N) (ds : list pdir) (e : jexpr) : jexpr :=
   let x := wrap_escapes ds e in
   match ds with [] => if mode =? 2 then x else JEEscapeHtml x | _ => x end.
+
+(* what the Go renderer writes for {print e|ds} when String() of the value is s: the text of each directive
+   (escapeHtml is template.HTMLEscapeString), or the autoescaper's htmlEscapeString when there is none *)
+Definition go_dir_text (d : pdir) (s : bstr) : bstr := match d with PEscapeHtml => tmpl_html_escape s | _ => s end.
+Fixpoint go_dirs_text (ds : list pdir) (s : bstr) : bstr :=
+  match ds with [] => s | d :: r => go_dirs_text r (go_dir_text d s) end.
+Definition go_print_text (mode : N) (ds : list pdir) (s : bstr) : bstr :=
+  match ds with [] => if mode =? 2 then s else html_escape s | _ => go_dirs_text ds s end.
 
 (* ---- statements: raw text, print, let (value form), if / elseif / else, switch ---- *)
 (* blocks, else-chains and case lists are types of their own (mutual with statements);
